@@ -127,6 +127,16 @@ func familyExt(family, id string, g *Gen, blocks, maxTx int) *Scenario {
 	case "govmix":
 		return g.Mixed(id, blocks, maxTx, GovKinds)
 	case "ons":
+		if blocks < 16 {
+			blocks = 16
+		}
+		return g.OnsStory(id, blocks, false)
+	case "onsgov": // the registry while a passed proposal changes its prices
+		if blocks < 18 {
+			blocks = 18
+		}
+		return g.OnsStory(id, blocks, true)
+	case "onsmix":
 		return g.Mixed(id, blocks, maxTx, OnsKinds)
 	case "deleg":
 		g.Hostile = 0.2
@@ -186,8 +196,10 @@ func familyKindsExt(family string) []string {
 		return StakeKinds
 	case "gov":
 		return GovKinds
-	case "ons":
+	case "ons", "onsmix":
 		return OnsKinds
+	case "onsgov":
+		return append(append([]string{}, OnsKinds...), "PROP_CREATE", "PROP_FUND", "PROP_VOTE")
 	}
 	return nil
 }
